@@ -348,6 +348,8 @@ class Machine:
         if len(g.items) == 1 and g.c == 0:
             (s, co), = g.items.items()
             t = self.T.rev[s]
+            if co == 1 and t[0] == "sym":
+                return t[1].startswith("arg8:") or t[1].endswith(":1")
             if co == 1 and t[0] == "z32":
                 tt = self.T.rev[t[1]]
                 return tt[0] in ("b0", "ld8") or (tt[0] == "sym" and (tt[1].endswith(":1") or tt[1].startswith("arg8:")))
@@ -582,7 +584,16 @@ def t_shift(T, kind, x, n):
 
 
 SEM.update({k: lanewise(lambda T, a, b: T.add(a, b)) for k in ("paddd", "vpaddd")})
-SEM.update({k: lanewise(lambda T, a, b: T.xor(a, b)) for k in ("pxor", "vpxor", "vpxord", "xorps", "vxorps")})
+def t_xor(T, a, b):
+    # xor of the two complementary shifts of one value is a rotation (their set bits are disjoint)
+    ta, tb = T.rev[a], T.rev[b]
+    for p, q in ((ta, tb), (tb, ta)):
+        if p[0] == "shr" and q[0] == "shl" and p[2] == q[2] and p[1] + q[1] == 32:
+            return T.rotr(p[1], p[2])
+    return T.xor(a, b)
+
+
+SEM.update({k: lanewise(t_xor) for k in ("pxor", "vpxor", "vpxord", "xorps", "vxorps")})
 SEM.update({k: lanewise(t_or) for k in ("por", "vpor", "vpord")})
 SEM.update({k: lanewise(t_and) for k in ("pand", "vpand", "vpandd")})
 SEM.update({k: lanewise(t_sub) for k in ("psubd", "vpsubd")})
